@@ -74,8 +74,13 @@ def gen_dicts(rnd, n):
             "Ж", "\U0001F600", "\U00010348", "\u0000", "\u007f", "\ufeff", "\u200b"]
     out = []
     for k in range(n):
-        kind = k % 6
-        if kind == 0:
+        kind = k % 7
+        if kind == 6:
+            # unpaired surrogates (half an emoji after a cut in the editor): JSON carries them as \uXXXX escapes.  Never a high one
+            # directly followed by a low one - that pair IS one astral character in JSON and in JavaScript
+            parts = [rnd.choice(["\ud83d", "\udc00", "\udfff a", "\ud800 ", "x\udbff", "\ude00\ud83d", "ab", "\n"]) for _ in range(rnd.randrange(1, 5))]
+            code = "".join(p + ("." if p[-1:] >= "\ud800" and p[-1:] <= "\udbff" else "") for p in parts)
+        elif kind == 0:
             code = rnd.choice(pool)
         elif kind == 1:
             code = "".join(rnd.choice(alph) for _ in range(rnd.randrange(0, 40)))
@@ -95,6 +100,10 @@ def gen_dicts(rnd, n):
             dct["options"] = {o: rnd.random() < 0.5 for o in rnd.sample(cw.OPTION_NAMES, rnd.randrange(0, 8))}
         if rnd.random() < 0.3:
             dct[rnd.choice(alph) + "k"] = rnd.choice([None, 0, -1, 2**40, 1.5, -0.25, [1, "x", None], {"n": {"m": []}}])
+        if rnd.random() < 0.35:
+            # any key is a key: one-letter names, abbreviations and prefixes of the page's own keys, next to the long ones
+            for key in rnd.sample(["c", "m", "p", "v", "o", "co", "cod", "code_", "Code", "comments", "append_version", "", " ", "0"], rnd.randrange(1, 4)):
+                dct[key] = rnd.choice([1, "x", True, None, code[:5]])
         out.append(dct)
     return out
 
@@ -243,7 +252,7 @@ def check_c18(tier, t0):
         "exhaustive": True,
         "rule": "model: all byte strings of length <= %d over %s (produces every sextet class incl. '+', '/', padding 0/1/2) through the "
                 "10-step pipeline; every behaviour replayed into encode_data/decode_data with zlib replaced by the model's bytes; "
-                "real dictionaries (corpus sources, Unicode incl. astral planes, NUL, BOM; no lone surrogates: not Unicode text, option values, nesting) recorded at the "
+                "real dictionaries (corpus sources, Unicode incl. astral planes, NUL, BOM; unpaired surrogates, one-letter and prefix keys, option values, nesting) recorded at the "
                 "zlib boundary and validated as traces by ShareLinkTrace.tla" % (maxlen, byteset),
         "samples": [{"raw_bytes": scens[len(scens) // 2]["raw"], "encoded": "".join(chr(c) for c in scens[len(scens) // 2]["enc"])},
                     {"dict": str(dicts[1])[:400], "encoded": (texts[1][:200] if len(texts) > 1 else None)}],
